@@ -543,6 +543,19 @@ def _bv8(x):
     return z3.BitVecVal(x, 8) if isinstance(x, int) else x
 
 
+def _case(it, lo, hi, delta):
+    """ASCII case mapping of one item (bytes.lower / bytes.upper semantics)"""
+    if isinstance(it, int):
+        return it + delta if lo <= it <= hi else it
+    p = CUR
+    if p is not None:
+        dom = p.byte_dom.get(it.get_id())
+        if dom is not None and not any(lo <= d <= hi for d in dom):
+            return it
+    return z3.If(z3.And(z3.UGE(it, z3.BitVecVal(lo, 8)), z3.ULE(it, z3.BitVecVal(hi, 8))),
+                 it + z3.BitVecVal(delta % 256, 8), it)
+
+
 def _z(x):
     if x is True:
         return z3.BoolVal(True)
@@ -833,9 +846,10 @@ class SymBytes(object):
         return self.__class__(out)
 
     def lower(self):
-        if self.is_concrete():
-            return self.__class__(tuple(self.concrete().lower()))
-        raise Unsupported("lower() on symbolic bytes")
+        return self.__class__(tuple(_case(it, 65, 90, 32) for it in self.items))
+
+    def upper(self):
+        return self.__class__(tuple(_case(it, 97, 122, -32) for it in self.items))
 
     def decode(self, *a, **k):
         if self.is_concrete():
